@@ -77,6 +77,8 @@ fixed("R1", "C02", "e2afc48", "checkpoint, then an unfinished transaction delete
 fixed("R1b", "C02", "e2afc48", "an unfinished transaction deletes a row whose committed INSERT is still in the log, crash: open failed with 'UNIQUE constraint violated' (undo inserted the row, then redo inserted it again)", "O-open", "findings/R1b-undo-of-delete-inserts-row-whose-insert-is-redone.json")
 fixed("R1c", "C01", "5fd18a0", "a row carrying the stale delete mark of a rolled-back transaction is checkpointed, an unfinished transaction deletes it, its log records reach the file, crash: open failed with 'UNIQUE constraint violated' (undo took the stale mark for the one to undo and re-inserted the row)", "O-open", "findings/R1c-undo-of-delete-meets-stale-mark-of-rolled-back-transaction.json")
 fixed("D26", "C04", "5ffff49", "a session begun while the last committed transaction id was still 0 (before or right after the first autocommit statement of a new database) had no upper bound on its snapshot and saw everything that committed later", "O-res", "findings/D26-session-begun-before-any-commit-sees-later-commits.json")
+fixed("T2", "C14", "2f03ae5", "SELECT COUNT(*) in one thread and INSERTs into the same table in others: the scan re-took a read latch it already held while a writer waited for it, and parking_lot queues new readers behind a waiting writer - the engine stopped for good (about every third run of a real-thread stress; invisible to the baton scheduler until it gave the locks that policy)", "O-deadlock", "findings/T2-count-scan-and-inserts-on-one-table-deadlock-on-a-page-latch.json")
+fixed("T3", "C14", "7e7b5c5", "a scan that started while another thread's INSERT split the root leaf failed with 'Btree iterator received an invalid position to iterate over' (the first leaf was looked up, released, and latched again by the iterator)", "O-res", "findings/T3-scan-started-while-the-root-leaf-splits-fails-invalid-iterator-position.json")
 
 # ---- open findings: plans and indexes (C06) ----
 fixed("J1", "C06", "0093459", "an equi-join lost matching rows when the left input held a NULL in the join column (merge join compared a NULL key as greater than every right key and ran the right input dry)", "O-plan", "findings/J1-equi-join-with-null-join-key-loses-matches.json")
